@@ -261,6 +261,157 @@ def flow_forces(S, rep):
            "apply_forces: %s" % texts, key="C08.e|%s" % texts)
 
 
+FLOAT_NAMES = {"float", "np.float64", "np.float32", "numpy.float64", "numpy.float32", "np.double", "np.single", "real_t", "self.real_t", "np.floating"}
+ALLOC = {"zeros", "empty", "ones"}
+ALLOC_LIKE = {"zeros_like", "empty_like", "ones_like"}
+
+
+def _local_value(fn, name, before):
+    """the last expression assigned to a local name before a line (straight-line constructors)"""
+    val = None
+    for st in ast.walk(fn):
+        if isinstance(st, ast.Assign) and st.lineno < before and any(isinstance(t, ast.Name) and t.id == name for t in st.targets):
+            if val is None or st.lineno > val.lineno:
+                val = st
+    return val.value if val is not None else None
+
+
+def element_type_of(fn, e, params, line, depth=0):
+    """('float', why) | ('caller', expr text) | ('unknown', why): the element type of the array an expression of a
+    constructor evaluates to, from the allocation idioms the package uses"""
+    if depth > 6:
+        return "unknown", "too deep"
+    if isinstance(e, ast.Name):
+        v = _local_value(fn, e.id, line)
+        if v is not None:
+            return element_type_of(fn, v, params, v.lineno, depth + 1)
+        if e.id in params:
+            return "caller", e.id
+        return "unknown", e.id
+    if isinstance(e, ast.Attribute):
+        r = e
+        while isinstance(r, (ast.Attribute, ast.Subscript)):
+            r = r.value
+        if isinstance(r, ast.Name) and r.id in params and _local_value(fn, r.id, line) is None:
+            return "caller", ast.unparse(e)
+        return "unknown", ast.unparse(e)
+    if isinstance(e, ast.Subscript):
+        return element_type_of(fn, e.value, params, line, depth + 1)
+    if isinstance(e, ast.Constant):
+        return ("float", "float literal") if isinstance(e.value, float) else ("unknown", repr(e.value))
+    if isinstance(e, ast.UnaryOp):
+        return element_type_of(fn, e.operand, params, line, depth + 1)
+    if isinstance(e, ast.BinOp):
+        if isinstance(e.op, ast.Div):
+            return "float", "true division"
+        a = element_type_of(fn, e.left, params, line, depth + 1)
+        b = element_type_of(fn, e.right, params, line, depth + 1)
+        if a[0] == "float" or b[0] == "float":
+            return "float", "arithmetic with a real operand"
+        return a if a[0] == "caller" else b
+    if isinstance(e, ast.Call):
+        f = e.func
+        name = f.attr if isinstance(f, ast.Attribute) else (f.id if isinstance(f, ast.Name) else "")
+        dt = next((k.value for k in e.keywords if k.arg == "dtype"), None)
+        if name in ALLOC or name in ALLOC_LIKE or name in ("array", "asarray", "full", "full_like", "astype", "ascontiguousarray"):
+            if name == "astype" and e.args:
+                dt = e.args[0]
+            if name in ALLOC and dt is None and len(e.args) >= 2:
+                dt = e.args[1]
+            if dt is not None:
+                t = ast.unparse(dt)
+                return ("float", "dtype=%s" % t) if t in FLOAT_NAMES else ("unknown", "dtype=%s" % t)
+            if name in ALLOC:
+                return "float", "numpy.%s default element type" % name
+            if name == "astype":
+                return "unknown", "astype without a type"
+            if e.args:
+                return element_type_of(fn, e.args[0], params, line, depth + 1)
+        if isinstance(f, ast.Attribute) and name in ("reshape", "copy", "view", "ravel", "squeeze", "transpose", "flatten"):
+            return element_type_of(fn, f.value, params, line, depth + 1)
+        if name in ("norm", "sqrt", "sin", "cos", "mean", "linspace"):
+            return "float", "numpy.%s returns reals" % name
+        if name in ("cross", "dot", "matmul", "add", "subtract", "multiply") and e.args:
+            rs = [element_type_of(fn, a, params, line, depth + 1) for a in e.args[:2]]
+            if any(r[0] == "float" for r in rs):
+                return "float", "arithmetic with a real operand"
+            return next((r for r in rs if r[0] == "caller"), rs[0])
+    if isinstance(e, (ast.List, ast.Tuple)):
+        rs = [element_type_of(fn, a, params, line, depth + 1) for a in e.elts]
+        if any(r[0] == "float" for r in rs):
+            return "float", "a real entry"
+        return next((r for r in rs if r[0] == "caller"), ("unknown", "literal list"))
+    return "unknown", ast.unparse(e)[:60]
+
+
+def own_body_attribute_types(S):
+    """attribute -> [(class, kind, why)] for the rigid bodies the package defines itself"""
+    path = os.path.join(S.repo, "sopht", "simulator", "immersed_body", "rigid_body", "derived_rigid_bodies.py")
+    tree = ast.parse(open(path).read())
+    out = {}
+    for cls in [c for c in tree.body if isinstance(c, ast.ClassDef)]:
+        init = next((f for f in cls.body if isinstance(f, ast.FunctionDef) and f.name == "__init__"), None)
+        if init is None:
+            continue
+        params = {a.arg for a in init.args.args + init.args.kwonlyargs} - {"self"}
+        for st in ast.walk(init):
+            if isinstance(st, ast.Assign) and len(st.targets) == 1 and isinstance(st.targets[0], ast.Attribute) \
+                    and isinstance(st.targets[0].value, ast.Name) and st.targets[0].value.id == "self":
+                kind, why = element_type_of(init, st.value, params, st.lineno)
+                out.setdefault(st.targets[0].attr, []).append((cls.name, kind, "%s (line %d: %s)" % (why, st.lineno, ast.unparse(st)[:80])))
+    return out
+
+
+def load_buffers_hold_reals(S, rep):
+    """the net force is written into body_flow_forces / body_flow_torques by assignment, which converts to the buffer's
+    element type: the buffers the interaction classes allocate must hold reals whatever the body's own arrays hold (an
+    integer-typed buffer truncates the force, and fluid + body no longer balance)"""
+    from .c10 import class_index
+    idx = class_index(S.repo)
+    own = None
+    base = idx.get("ImmersedBodyFlowInteraction")
+    if base is None:
+        raise Unsupported("anchor vanished: ImmersedBodyFlowInteraction")
+    binit = next(f for f in base[0].body if isinstance(f, ast.FunctionDef) and f.name == "__init__")
+    bparams = [a.arg for a in binit.args.args][1:]
+    found = 0
+    for name in sorted(idx):
+        cls, rel = idx[name]
+        if not any(ast.unparse(b).split(".")[-1] == "ImmersedBodyFlowInteraction" for b in cls.bases):
+            continue
+        init = next((f for f in cls.body if isinstance(f, ast.FunctionDef) and f.name == "__init__"), None)
+        if init is None:
+            continue
+        params = {a.arg for a in init.args.args + init.args.kwonlyargs} - {"self"}
+        sup = next((c for c in ast.walk(init) if isinstance(c, ast.Call) and isinstance(c.func, ast.Attribute) and c.func.attr == "__init__"
+                    and isinstance(c.func.value, ast.Call) and ast.unparse(c.func.value.func) == "super"), None)
+        if sup is None:
+            continue
+        bound = dict(zip(bparams, sup.args))
+        bound.update({k.arg: k.value for k in sup.keywords if k.arg})
+        for buf in ("body_flow_forces", "body_flow_torques"):
+            if buf not in bound:
+                raise Unsupported("%s.__init__ does not pass %s to the base constructor" % (name, buf))
+            kind, why = element_type_of(init, bound[buf], params, sup.lineno)
+            found += 1
+            ok, detail = True, "holds reals: %s" % why
+            if kind == "caller":
+                if own is None:
+                    own = own_body_attribute_types(S)
+                attr = why.split(".")[-1]
+                loose = [(c, w) for c, k, w in own.get(attr, []) if k != "float"]
+                if loose:
+                    ok = False
+                    detail = ("takes its element type from %s, and %s stores that array as the caller gave it: %s; with an integer-typed "
+                              "array the net force is truncated on assignment" % (why, loose[0][0], loose[0][1]))
+                else:
+                    detail = "takes its element type from %s, which every rigid body of the package stores as reals" % why
+            elif kind == "unknown":
+                raise Unsupported("%s.__init__: element type of %s cannot be determined (%s)" % (name, buf, why))
+            rep.ob("C08.h", "%s allocates %s for reals" % (name, buf), ok, detail, key="C08.h|%s|%s|%s" % (name, buf, kind), nontrivial=False)
+    rep.note("load_buffers", found)
+
+
 def run_wrappers(S, rep):
     """fluid + body forces balance only if the interaction the user configured is the one that runs: the body-specific
     interaction classes must forward the reset / accumulate option (and every other argument) to the base unchanged"""
@@ -284,6 +435,8 @@ def run(S, tier, rep):
     # evaluation path must refresh positions, velocities, arms and directors before it uses them (def-use rule shared with C09)
     from .c09 import freshness
     freshness(S, rep, "C08.g")
+    load_buffers_hold_reals(S, rep)
+    rep.require_min("C08.h", 4)
     rep.require_min("C08.g", 40)
     rep.require_min("C08.f", 2)
     rep.require_min("C08.a", 12)
